@@ -40,7 +40,7 @@ def run_maximum_color(glyphs, overrides, bitmaps, keep_names):
         cmd.append(src)
         env = dict(os.environ, PYTHONPATH=_repo_src(), PATH="/venv/bin:" + os.environ.get("PATH", ""))
         r = subprocess.run(cmd, cwd=d, env=env, capture_output=True, text=True, timeout=900)
-        out = {"exit": r.returncode, "stderr": r.stderr[-2000:], "cfg": cfg, "font_in": font_in, "font_out": None}
+        out = {"exit": r.returncode, "stderr": (r.stdout[-1500:] + r.stderr[-1500:]), "cfg": cfg, "font_in": font_in, "font_out": None}
         if r.returncode == 0:
             outs = [f for f in os.listdir(os.path.join(d, "b")) if f in ("Font.ttf", "AnEmojiFamily.ttf")]
             if outs:
@@ -49,6 +49,10 @@ def run_maximum_color(glyphs, overrides, bitmaps, keep_names):
 
 
 def max_color_problems(glyphs, overrides, bitmaps, keep_names, result):
+    if result["exit"] != 0 and bitmaps and "Bitmap is too big for CBDT" in result["stderr"]:
+        # a glyph too wide for CBDT's 8-bit metrics at the default resolution is rejected
+        # with an error (C14 / C17 allow exactly that); nothing was written
+        return []
     if result["exit"] != 0 or result["font_out"] is None:
         return [("maximum_color failed", result["stderr"][-600:])]
     fi, fo, cfg = result["font_in"], result["font_out"], result["cfg"]
